@@ -1476,3 +1476,9 @@ func VH_C18_cluster3_client_admin() {
 	vAssert(step >= 2, "script-completed")
 	vReach("end")
 }
+
+//verif:check C16,C01 tier=thorough sched=coop+1 maxsteps=800000 onunwind=violation stubs=rt,timers,valuefile,abslog onblock=violation reach=transfer-submitted,transferred,closed,end desc="as VH_C16_cluster3_transfer under every goroutine schedule that differs from round robin in at most one hand-over" bounds="as VH_C16_cluster3_transfer; schedules within 1 deviation from round robin" maxdec=6000
+func VH_C16_cluster3_transfer_sched1() { VH_C16_cluster3_transfer() }
+
+//verif:check C07,C03 tier=thorough sched=coop+1 maxsteps=1000000 onunwind=violation stubs=rt,timers,valuefile,abslog onblock=violation reach=submitted,answered,closed,end desc="as VH_C07_cluster2_client_ops under every goroutine schedule that differs from round robin in at most one hand-over (the batching goroutine then also forms batches of more than one task)" bounds="as VH_C07_cluster2_client_ops; schedules within 1 deviation from round robin" maxdec=6000
+func VH_C07_cluster2_client_ops_sched1() { VH_C07_cluster2_client_ops() }
